@@ -48,6 +48,17 @@ INFO = {
  "C12-h": ("replica-set list selector built with validation; on error the label option is dropped", "an ExtendedDaemonSet name longer than 63 characters (no valid label value) + a neighbour in the namespace", "MISSED -> class eds-long-name in eds_reconcile; C12.no-adoption / C12.writes-owned"),
  "C15-h": ("manageStatus restarts the canary status when the up-to-date replica set differs from the recorded canary one", "second template change during a canary after the canary pods restarted", "no-failing-input-found -> clause C15.keep(reconcile) on every real Reconcile"),
  "C16-h": ("canary duration defaults guarded by the controller-level default mode instead of the spec's mode", "explicit validationMode differing from the controller's default, no durations set", ""),
+ # ninth wave (-i)
+ "C01-i": ("ReplaceNodeNameNodeAffinity overwrites a metadata.name requirement only when its operator is In (a NotIn exclusion is kept, the pin appended after it; the read-back returns the excluded name)", "affinity mode, a template excluding a node by name (matchFields metadata.name NotIn), an unscheduled pod at the next sync", "MISSED -> rich / name-excluding templates in ers_reconcile, every generated pod records the node it was built for, clause C01.api-no-second-pod-for-node"),
+ "C03-i": ("a failed lookup of the old DaemonSet's pods falls back on the list remembered from the previous sync", "migration annotation + adopted pods + a first sync that spends the budget + a failed Get of the DaemonSet in the next sync of the same process", "MISSED -> second-sync cases in ers_reconcile (the same reconciler syncs the same world twice, the second time with the DaemonSet unreadable); C03.holds(sync level) judged under read faults"),
+ "C06-i": ("autoFail.maxRestarts clamped up to autoPause.maxRestarts even when auto-pause is disabled", "auto-pause disabled, auto-fail enabled with a lower threshold, restart count in between", ""),
+ "C07-i": ("shouldDeleteERS returns as soon as the failed replica set's grace period is over (zero-pod test skipped)", "failed canary whose pods are still there two minutes later (e.g. rolling update paused)", "no-failing-input-found (550 s; only the C13 clause covered the counters) -> clause C07.failed-deleted-only-drained"),
+ "C08-i": ("getDaemonsetOwner reuses the last successfully read ExtendedDaemonSet when the Get fails", "same process, annotation set after the last successful read, failed Get of the parent", "MISSED -> Get faults (parent / old DaemonSet) combined with warm reconcilers whose earlier world had other switches; clauses C11.no-pod-write-without-parent / C08.sync-obeys-current-switches"),
+ "C13-i": ("PodTemplate not rewritten when it is not controlled by this ExtendedDaemonSet object (UID)", "ExtendedDaemonSet deleted and re-created under the same name while the PodTemplate survives", ""),
+ "C14-i": ("status write decided by a hand-written isStatusEqual that omits upToDate", "stored status differing from the new one in upToDate only (a pod replaced between two reconciles)", "MISSED -> class pod-replaced-between-reconciles, clause C14.status-refreshed"),
+ "C17-i": ("pod deletions and creations of one sync run in two goroutines sharing newStatus", "one sync with both deletions and creations", ""),
+ "C18-i": ("searchPossibleConflict skips settings with an empty selector (getNodeList still treats it as everything)", "a setting with an empty nodeSelector next to another one", ""),
+ "C20-i": ("defaults of the canary gauges hoisted out of the GenerateFunc closure", "families built once (as the controller does), an object with a canary rendered before one without", "MISSED -> the metrics stream builds the families once per process"),
  "C19-h": ("rolling-update pause / freeze guard reads status.state == Canary instead of status.canary", "a paused canary (state Canary Paused) or a state string not yet refreshed", "MISSED -> the cli generator draws the state string independently of status.canary; C19.refuses-without-precondition"),
 }
 def main():
